@@ -20,6 +20,10 @@ _INSTALLED = [False]
 _REAL = {}
 PUMP = [None]  # optional callable run when a LoopSocket would block
 SEGMENT = [0]  # > 0: what a peer sends arrives in pieces of that many bytes
+# [n, kind]: the n-th connection to the database server from now on breaks
+# once: 'request' = the command never reaches the server, 'reply' = the server
+# executes it but its answer is lost (both surface as ConnectionResetError)
+CONN_FAULT = [None]
 
 
 class LoopSocket:
@@ -69,6 +73,27 @@ class LoopSocket:
         self.close()
 
 
+class _BrokenSocket(LoopSocket):
+    '''a connection that is reset once (see CONN_FAULT)'''
+
+    def __init__(self, proto, kind):
+        LoopSocket.__init__(self, proto)
+        self.kind = kind
+        self.fired = False
+
+    def sendall(self, b):
+        if self.kind == 'request':
+            self.fired = True
+            self.close(clean=False)
+            raise ConnectionResetError('connection reset (injected)')
+        return LoopSocket.sendall(self, b)
+
+    def recv(self, n):
+        self.fired = True
+        self.close(clean=False)
+        raise ConnectionResetError('connection reset (injected)')
+
+
 class _FakeCert:
     def options(self, *_a, **_k):
         return None
@@ -93,6 +118,12 @@ def connect(address):
     port = int(address[1])
     peer = world.Address('client', 40000)
     if port == DB_PORT:
+        f = CONN_FAULT[0]
+        if f is not None:
+            f[0] -= 1
+            if f[0] < 0:
+                CONN_FAULT[0] = None
+                return _BrokenSocket(comms.Worker(peer), f[1])
         return LoopSocket(comms.Worker(peer))
     if port == FARM_PORT:
         return LoopSocket(farm.Hand(peer))
